@@ -88,7 +88,8 @@ fn value_strategy(n_styles: u32) -> impl Strategy<Value = (XVal, Option<XFormula
         3 => xtext(true).prop_map(XVal::Shared),
         2 => xtext(true).prop_map(XVal::Inline),
         // a formula whose result is the empty string is cached as <v></v>: still a String cell
-        1 => prop_oneof![5 => simple_text(), 1 => Just(String::new())].prop_map(XVal::Str),
+        // (and a formula result may begin or end with blanks: <v> keeps them without any attribute)
+        1 => prop_oneof![5 => simple_text(), 1 => Just(String::new()), 1 => proptest::sample::select(vec![" total", "total ", "   ", " a b "]).prop_map(|s| s.to_string())].prop_map(XVal::Str),
         1 => any::<bool>().prop_map(XVal::Bool),
         1 => (0u8..7).prop_map(XVal::Err),
         1 => prop_oneof![Just("2021-01-01"), Just("2021-12-31T23:59:59"), Just("1900-01-01T00:00:00.000")].prop_map(|s| XVal::Iso(s.to_string())),
